@@ -184,7 +184,7 @@ def loose_textgrid(S, name, k):
     return S.obj(TG, _tierDict=S.odict(pairs), minTimestamp=S.real(name + ".min"), maxTimestamp=S.real(name + ".max"))
 
 
-contract(TG + ".validate", serves=["C15", "C12"], spec_module="spec.textgrids",
+contract(TG + ".validate", serves=["C15", "C12", "C13"], spec_module="spec.textgrids",
          configs={"k": [0, 1, 2], "reportingMode": ["silence", "warning", "bogus"]},
          inputs=lambda S, cfg: dict(self=loose_textgrid(S, "self", cfg["k"]), reportingMode=cfg["reportingMode"]),
          spec="spec.textgrids.Textgrid_validate", frame=["self"])
